@@ -188,6 +188,18 @@ impl<T: Bounded> BVH<T> {
 
     /// Divide lista de elementos en dos partes usando el centroide en el eje más largo como plano divisor
     fn partition_elements_by_centroid(elements: Vec<T>) -> (Vec<T>, Vec<T>) {
+        let (mut left, mut right) = Self::partition_elements_by_centroid_plane(elements);
+        // Centroides coincidentes (o todos al mismo lado del plano): dividimos por la mitad
+        // para garantizar que ambas ramas tienen elementos y la construcción termina
+        if left.is_empty() || right.is_empty() {
+            left.append(&mut right);
+            right = left.split_off(left.len() / 2);
+        }
+        (left, right)
+    }
+
+    /// Divide lista de elementos según la posición del centroide respecto al centroide medio en el eje más largo
+    fn partition_elements_by_centroid_plane(elements: Vec<T>) -> (Vec<T>, Vec<T>) {
         let aabb = elements.aabb();
         let dim = aabb.max.coords - aabb.min.coords;
         let len = elements.len() as f32;
